@@ -279,7 +279,7 @@ def plan(tier, seed):
     shards += [('esoup', L, k) for k in range(NSHARDS)]
     shards += [('rand', nrand // NSHARDS, seed * 1000 + 500 + k) for k in range(NSHARDS)]
     return {'shards': shards, 'bounds': {'documents': ndocs, 'soup_len': L, 'random_soups': nrand},
-            'required_classes': ['cb:' + c for c in CALLBACK.values()] +
+            'required_classes': ['after-another-visitor-class'] + ['cb:' + c for c in CALLBACK.values()] +
                                 ['cb:visit_parsed_arguments', 'has-absent-argument-or-body',
                                  'non-trivial', 'tolerant-tree', 'falsy-results', 'generic-visit-only',
                                  'specials-with-arguments']}
@@ -301,6 +301,15 @@ def do_source(s, ctxname, tolerant, res, case):
         for mode in ('tok', 'falsy'):
             check_tree(s, nl, res, case, mode=mode, foreign='unknown-node-kind' in done)
         return
+    # another visitor class at work on the tree first -- the recomposer the library itself ships,
+    # which redefines the standard processing of every node kind: what a visitor sees does not
+    # depend on which other visitor classes have been used in the process
+    try:
+        from pylatexenc.latexnodes import LatexNodesLatexRecomposer
+        LatexNodesLatexRecomposer().latex_recompose(nl)
+        res.label('after-another-visitor-class')
+    except Exception:
+        pass        # (the recomposer's own behaviour is not the subject here)
     exp = check_tree(s, nl, res, case)
     classify(exp, res, s, case)
     check_tree(s, nl, res, case, mode='falsy')
